@@ -121,6 +121,7 @@ type Frame struct {
 	curBlock   *ssa.BasicBlock
 	curInstr   ssa.Instruction
 	headerFlag map[*ssa.BasicBlock]Term
+	borrow     *Frame                   // an inlined helper without contract whose loops use loop clauses of this (top) frame's contract
 	ghostIter  map[*ssa.BasicBlock]Term // ghost count of completed iterations at the loop header (any loop shape)
 }
 
@@ -159,6 +160,9 @@ type FuncEnc struct {
 	bvOffsets map[string]bvOffset
 	consts    map[string]bool
 	entryMeasure []Term
+	loopMaps     map[*ssa.Function]map[int]int // code loop ordinal -> contract loop ordinal (when the counts differ)
+	orphanLoops  []int                         // contract loop ordinals of the top function no loop of its code matched
+	borrowed     map[string]int                // "fn:ord" of an inlined helper loop -> orphan contract loop ordinal
 	renames      map[string]string // rename recovery: contract name -> local it was resolved to ("" = none)
 	deps         map[string]bool // functions whose contract (or havoc summary, or inlined body) this function's proof uses
 	checkOnly    bool // emit obligations without assuming them afterwards
